@@ -10,6 +10,8 @@ package service
 // both maps exist and have the same keys; a record has as many slots as the first packet announced.
 //@ spec wf(p *packageParse) bool = p.subcontractingRecord != nil && p.timeoutRecord != nil && forallb(k, 16, iff(has(p.subcontractingRecord, k), has(p.timeoutRecord, k)) && (has(p.timeoutRecord, k) ==> p.timeoutRecord[k] != nil && p.timeoutRecord[k].initHeader != nil && p.timeoutRecord[k].initHeader.Property != nil && len(p.subcontractingRecord[k]) == int(p.timeoutRecord[k].initHeader.SubPackageSum)))
 //@ valid *packageParse p: p != nil && wf(p)
+// distinct transfers have distinct bookkeeping records (add allocates a new one each time)
+//@ spec inj(p *packageParse) bool = forallb(k1, 16, forallb(k2, 16, has(p.timeoutRecord, k1) && has(p.timeoutRecord, k2) && k1 != k2 ==> p.timeoutRecord[k1] != p.timeoutRecord[k2]))
 
 //@ spec nonempty(r [][]byte, n int) int = ite(n <= 0, 0, nonempty(r, n-1) + ite(len(r[n-1]) != 0, 1, 0))
 
@@ -20,6 +22,8 @@ package service
 //@   requires wf: wf(p)
 //@   ensures C05.wf: wf(p)
 //@   ensures C05.len: has(p.subcontractingRecord, id) && len(p.subcontractingRecord[id]) == int(header.SubPackageSum)
+//@   ensures C14.inj: old(inj(p)) ==> inj(p)
+//@   ensures C14.first: p.timeoutRecord[id].initHeader == header && fresh(p.timeoutRecord[id])
 
 //@ func (*packageParse).remove
 //@   mode contract
@@ -27,11 +31,14 @@ package service
 //@   requires wf: wf(p)
 //@   ensures C05.wf: wf(p)
 //@   ensures C05.gone: !has(p.subcontractingRecord, id) && !has(p.timeoutRecord, id)
+//@   ensures C14.inj: old(inj(p)) ==> inj(p)
+//@   ensures C14.others: forallb(k, 16, k != id ==> has(p.timeoutRecord, k) == old(has(p.timeoutRecord, k)) && p.timeoutRecord[k] == old(p.timeoutRecord[k]) && has(p.subcontractingRecord, k) == old(has(p.subcontractingRecord, k)) && ptr(p.subcontractingRecord[k]) == old(ptr(p.subcontractingRecord[k])) && len(p.subcontractingRecord[k]) == old(len(p.subcontractingRecord[k])))
 
 //@ spec vmsg(m *Message) bool = m != nil && m.JTMessage != nil && m.JTMessage.Header != nil && m.JTMessage.Header.Property != nil
 
 //@ func (*packageParse).completePack
 //@   ensures C05.wf: wf(p)
+//@   ensures C14.inj: old(inj(p)) ==> inj(p)
 //@   ensures valid: result1 ==> vmsg(result0)
 //@   ensures C05.range: old(msg.JTMessage.Header.SubPackageSum) > 0 && (old(msg.JTMessage.Header.SubPackageNo) == 0 || (old(msg.JTMessage.Header.SubPackageNo) != 1 && int(old(msg.JTMessage.Header.SubPackageNo)) > old(len(p.subcontractingRecord[msg.JTMessage.Header.ID])))) ==> result1 == false && result0 == nil
 //@   ensures C05.unfragmented: old(msg.JTMessage.Header.SubPackageSum) == 0 ==> result1 == false && result0 == nil
@@ -75,12 +82,51 @@ package service
 //@   ensures C06.next: c.platformSerialNumber == old(c.platformSerialNumber) + 1
 
 
+// C14: a transfer is discarded exactly when it began more than 60 s before the call's time.Now(); nothing else is touched.
 //@ func (*packageParse).deleteTimeoutPackage
 //@   ensures C14.wf: wf(p)
+//@   ensures C14.inj: old(inj(p)) ==> inj(p)
+//@   loop 1 invariant inj: old(inj(p)) ==> inj(p)
+//@   ensures C14.expired: forallb(k, 16, has(p.timeoutRecord, k) ==> old(has(p.timeoutRecord, k)) && !(clock() - 60000000000 > old(instant(p.timeoutRecord[k].createTime))))
+//@   ensures C14.kept: forallb(k, 16, old(has(p.timeoutRecord, k)) && !(clock() - 60000000000 > old(instant(p.timeoutRecord[k].createTime))) ==> has(p.timeoutRecord, k) && p.timeoutRecord[k] == old(p.timeoutRecord[k]))
 //@   loop 1 invariant wf: wf(p)
+//@   loop 1 invariant now: instant(now) == clock() - 60000000000
+//@   loop 1 invariant sub: forallb(k, 16, has(p.timeoutRecord, k) ==> old(has(p.timeoutRecord, k)) && p.timeoutRecord[k] == old(p.timeoutRecord[k]))
+//@   loop 1 invariant done: forallb(k, 16, visited(k) && has(p.timeoutRecord, k) ==> !(instant(now) > old(instant(p.timeoutRecord[k].createTime))))
+//@   loop 1 invariant kept: forallb(k, 16, old(has(p.timeoutRecord, k)) && !(instant(now) > old(instant(p.timeoutRecord[k].createTime))) ==> has(p.timeoutRecord, k))
 
 
+// C14: for every transfer idle for more than 5 s (relative to the call's first time.Now()) one 0x8003 body is built from
+// the first packet's serial number and exactly the empty slots, ascending; the transfer's idle clock restarts.
 //@ func (*packageParse).supplementarySubPackage
+//@   requires C14.inj: inj(p)
 //@   ensures C14.wf: wf(p)
+//@   ensures C14.refreshed: forallb(k, 16, has(p.timeoutRecord, k) && old(clock()) - 5000000000 > old(instant(p.timeoutRecord[k].updateTime)) ==> instant(p.timeoutRecord[k].updateTime) >= old(clock()))
+//@   ensures C14.untouched: forallb(k, 16, has(p.timeoutRecord, k) && !(clock() - 5000000000 > old(instant(p.timeoutRecord[k].updateTime))) ==> instant(p.timeoutRecord[k].updateTime) == old(instant(p.timeoutRecord[k].updateTime)))
+//@   ensures C14.keys: forallb(k, 16, has(p.timeoutRecord, k) == old(has(p.timeoutRecord, k)) && p.timeoutRecord[k] == old(p.timeoutRecord[k]))
 //@   loop 1 invariant wf: wf(p)
+//@   loop 1 invariant now: old(clock()) - 5000000000 <= instant(now) && instant(now) <= clock() - 5000000000
+//@   loop 1 invariant keys: forallb(k, 16, has(p.timeoutRecord, k) == old(has(p.timeoutRecord, k)) && p.timeoutRecord[k] == old(p.timeoutRecord[k]))
+//@   loop 1 invariant done: forallb(k, 16, visited(k) && has(p.timeoutRecord, k) && instant(now) > old(instant(p.timeoutRecord[k].updateTime)) ==> instant(p.timeoutRecord[k].updateTime) >= instant(now) + 5000000000)
+//@   loop 1 invariant untouched: forallb(k, 16, has(p.timeoutRecord, k) && (!visited(k) || !(instant(now) > old(instant(p.timeoutRecord[k].updateTime)))) ==> instant(p.timeoutRecord[k].updateTime) == old(instant(p.timeoutRecord[k].updateTime)))
+//@   focus done: keys now inj untouched wf
+//@   focus untouched: keys now inj wf
+//@   focus refreshed: done keys now
 //@   loop 1 invariant msgs: msgs == nil || fresh(msgs)
+//@   loop 2 invariant wf: wf(p)
+//@   loop 2 invariant cur: has(p.timeoutRecord, id) && p.timeoutRecord[id] == v && v != nil
+//@   loop 2 invariant idx: 0 - 1 <= rangeindex && rangeindex < len(p.subcontractingRecord[id])
+//@   loop 2 invariant seqs: seqs == nil || fresh(seqs)
+//@   loop 2 invariant bound: len(seqs) <= rangeindex + 1
+//@   loop 2 invariant asc: forall(i, 0, len(seqs)-1, seqs[i] < seqs[i+1])
+//@   loop 2 invariant range: forall(i, 0, len(seqs), 1 <= int(seqs[i]) && int(seqs[i]) <= rangeindex + 1 && len(p.subcontractingRecord[id][int(seqs[i])-1]) == 0)
+//@   loop 2 invariant all: forall(j, 0, rangeindex+1, len(p.subcontractingRecord[id][j]) == 0 ==> exists(i, 0, len(seqs), int(seqs[i]) == j+1))
+//@   precall Encode#1 C14.asc: forall(i, 0, len(seqs)-1, seqs[i] < seqs[i+1])
+//@   precall Encode#1 C14.missing: forall(i, 0, len(seqs), 1 <= int(seqs[i]) && int(seqs[i]) <= len(p.subcontractingRecord[id]) && len(p.subcontractingRecord[id][int(seqs[i])-1]) == 0)
+//@   precall Encode#1 C14.all: forall(j, 0, len(p.subcontractingRecord[id]), len(p.subcontractingRecord[id][j]) == 0 ==> exists(i, 0, len(seqs), int(seqs[i]) == j+1))
+//@   precall Encode#1 C14.stale: instant(now) > instant(v.updateTime)
+//@   precall Encode#2 C14.body: len(arg1) == 3 + 2*len(seqs) && be16(arg1, 0) == v.initHeader.SerialNumber && arg1[2] == byte(len(seqs)) && forall(i, 0, len(seqs), be16(arg1, 3+2*i) == seqs[i])
+//@   precall Encode#2 C14.id: arg0 == v.initHeader && arg0.ReplyID == 0x8003 && arg0.Property.PacketFragmented == 0
+//@   focus all: cur idx seqs wf
+//@   focus range: cur idx seqs wf
+//@   focus asc: cur idx seqs range wf
